@@ -157,6 +157,10 @@ def oracle(raw, users, delete=False):
         eps = [p for p in raw.get("errpaths", []) if p]
         def lit(p):
             return (p.endswith(".sy.tmp") and p[:-7] in src) or (p + ".sy.tmp") in src or (p + ".sy.tmp") in before
+        # (since b6e2492 a failed post-transfer verification alone gives exit status 1, with no error path: then the files that do
+        # not hold their source's content say which class it is)
+        if not eps and not raw["nerr"]:
+            eps = [rel for rel, s_ in src.items() if s_["kind"] == "f" and (after.get(rel) is None or after[rel].get("sha") != s_["sha"])]
         fails.append({"why": "the run failed (exit %s, %d errors): %s" % (raw["rc"], raw["nerr"], raw["stderr"][-200:]),
                       "klass": "literal-temp-name" if eps and all(lit(p) for p in eps) else None})
     for rel, s in src.items():
